@@ -1,4 +1,444 @@
-import PieModel.Build.Pie
+/-
+Property C20, static-role fragment: *no diagnosed violation ever*.
+
+"An incremental build aborts with a cycle, hidden-dependency or overlapping-write error only if
+the tasks, as they behave in the current resource state, actually contain that violation; for
+all well-formed programs (which contain no violation in any state) and all histories: no abort
+ever."
+
+Here "well-formed" is made precise by *static roles* (`PieModel/Build/Roles.lean`):
+`Roles.rank` orders the task names and every require goes to strictly greater rank (so the
+require relation is acyclic in every resource state); `Roles.gen r = some w` designates `w` as
+the only task that may write resource `r`; a task writes a resource at most once per execution
+path and never reads a resource it may write; a task reads a generated resource only after it
+required the generator on the same path (`StaticRoles`, `WellFormedBody`).  Such programs
+contain no cycle, no overlapping write and no hidden dependency in any state.
+
+Theorems (for every checker semantics `sem`, every fuel, every `WellFormedBody ro body`):
+* `RolesInv ro` (every edge of the store respects the roles; every read edge into a generated
+  resource comes with a direct edge from the reader to the generator) holds for the empty store
+  and is preserved by every function of the model, whatever the result;
+* none of the functions returns `.abort .cyclic`, `.abort .hidden` or `.abort .overlap`;
+* `C20_static_no_abort`: along every history of external changes, top-down sessions (several
+  roots) and bottom-up builds followed by requires, no session or build ends with one of the
+  three aborts (`.taskPanic` and `.outOfFuel` remain possible; `.bug` is handled in C19/C18).
+
+Property statements only; proofs in `PieModel/Build/Roles.lean` (store), `RolesSession.lean`
+(primitives), `RolesTopDown.lean`, `RolesBottomUp.lean`.
+-/
+import PieModel.Build.RolesBottomUp
+import PieModel.Props.C19
+
 namespace PieModel
-theorem C20_placeholder : True := trivial
+
+variable (ro : Roles) (sem : Sem) (body : Nat → Prog)
+
+/-! ### the invariant -/
+
+/-- The empty store satisfies the invariant. -/
+theorem C20_rolesInv_empty : RolesInv ro {} := RolesInv.empty ro
+
+/-- The invariant contains store well-formedness. -/
+theorem C20_rolesInv_wf (st : Store) (h : RolesInv ro st) : st.WF := h.wf
+
+/-- Every path between task nodes strictly increases the rank: the require graph of the store is
+acyclic "for a static reason". -/
+theorem C20_reach_rank (st : Store) (h : RolesInv ro st) (a b ta tb : Nat) (hr : st.g.Reach a b)
+    (ha : st.taskOf a = some ta) (hb : st.taskOf b = some tb) : ro.rank ta < ro.rank tb :=
+  h.reach_rank hr ha hb
+
+/-- The store operations preserve the invariant (side conditions: the new edge respects the
+roles). -/
+theorem C20_store_ops (st : Store) (h : RolesInv ro st) :
+    (∀ t, RolesInv ro (st.getOrCreateTaskNode t).1) ∧
+    (∀ r, RolesInv ro (st.getOrCreateResNode r).1) ∧
+    (∀ n o, RolesInv ro (st.setTaskOutput n o)) ∧
+    (∀ n, RolesInv ro (st.resetTask n)) ∧
+    (∀ src dst t u, st.taskOf src = some t → st.taskOf dst = some u → ro.rank t < ro.rank u →
+      RolesInv ro (st.addDependency src dst .reserved).1) ∧
+    (∀ src dst t c stamp st', st.setDependency src dst (.require t c stamp) = some st' →
+      st.taskOf dst = some t → RolesInv ro st') :=
+  ⟨h.getOrCreateTaskNode, h.getOrCreateResNode, h.setTaskOutput, h.resetTask,
+    fun _ _ _ u hs hd hlt => h.addDependency hs (d := .reserved) ⟨u, hd⟩
+      (fun u' hu' => by rw [hd] at hu'; cases hu'; exact hlt)
+      (fun _ _ _ hh => nomatch hh) (fun _ _ _ _ hh => nomatch hh),
+    fun _ _ _ _ _ _ hs hd => h.setDependency hs hd⟩
+
+/-! ### the three diagnoses, at the primitives
+
+`cur` is the executing task node (task `t0`), `a` the path accumulator reflected in the store
+(`AccOK`). -/
+
+/-- A read of `r` after the generator of `r` (if any) was required: never `hidden`; the
+invariant and the accumulator facts are kept. -/
+theorem C20_read_ok (s : Sess) (h : SessWF s) (hi : RolesInv ro s.store) (cur t0 : Nat)
+    (hc : s.cur = some cur) (ht : s.store.taskOf cur = some t0) (a : Acc)
+    (ha : AccOK s.store cur a) (r c : Nat) (hreq : ∀ w, ro.gen r = some w → w ∈ a.req) :
+    NoViol (doRead sem s r c).2 ∧ SessWF (doRead sem s r c).1 ∧
+      RolesInv ro (doRead sem s r c).1.store ∧ AccOK (doRead sem s r c).1.store cur a :=
+  have := doRead_roles sem h hi hc ht ha r c hreq 0
+  ⟨this.1.noViol, this.1.rext.wf, this.1.rext.inv, this.2⟩
+
+/-- The first write of `r` in this execution by its generator: never `overlap`, never `hidden`. -/
+theorem C20_write_ok (s : Sess) (h : SessWF s) (hi : RolesInv ro s.store) (cur t0 : Nat)
+    (hc : s.cur = some cur) (ht : s.store.taskOf cur = some t0) (a : Acc)
+    (ha : AccOK s.store cur a) (r c : Nat) (v : Option Int) (hg : ro.gen r = some t0)
+    (hnw : r ∉ a.wr) :
+    (NoViol (doWrite sem s r c v).2 ∧ SessWF (doWrite sem s r c v).1 ∧
+      RolesInv ro (doWrite sem s r c v).1.store ∧
+      AccOK (doWrite sem s r c v).1.store cur { a with wr := r :: a.wr }) ∧
+    (NoViol (doWrote sem s r c v).2 ∧ SessWF (doWrote sem s r c v).1 ∧
+      RolesInv ro (doWrote sem s r c v).1.store ∧
+      AccOK (doWrote sem s r c v).1.store cur { a with wr := r :: a.wr }) :=
+  have h1 := doWrite_roles sem h hi hc ht ha r c v hg hnw 0
+  have h2 := doWrote_roles sem h hi hc ht ha r c v hg hnw 0
+  ⟨⟨h1.1.noViol, h1.1.rext.wf, h1.1.rext.inv, h1.2⟩, ⟨h2.1.noViol, h2.1.rext.wf, h2.1.rext.inv, h2.2⟩⟩
+
+/-- Reserving a require edge to a task of greater rank: never `cyclic`. -/
+theorem C20_reserve_ok (s : Sess) (h : SessWF s) (hi : RolesInv ro s.store) (dst t : Nat)
+    (hd : s.store.taskOf dst = some t) (hpre : ReqPre ro s t) :
+    NoViol (reserveRequire s dst).2 ∧ SessWF (reserveRequire s dst).1 ∧
+      RolesInv ro (reserveRequire s dst).1.store :=
+  have := (reserveRequire_roles h hi hd hpre 0).1
+  ⟨this.noViol, this.rext.wf, this.rext.inv⟩
+
+/-! ### aborts along a history -/
+
+/-- The abort (if any) with which a session / build of one history step ends. -/
+def stepAborts (fuel : Nat) (p : PieSt) : HStep → List Abort
+  | .change _ _ => []
+  | .session roots =>
+    match (requireAll sem body fuel p.newSession roots).2 with
+    | .abort a => [a]
+    | .ok _ => []
+  | .bottomUp changed roots =>
+    match bottomUpBuild sem body fuel p.newSession changed with
+    | (_, .abort a) => [a]
+    | (s, .ok ()) =>
+      match (requireAll sem body fuel s roots).2 with
+      | .abort a => [a]
+      | .ok _ => []
+
+/-- All aborts produced along a history started in `p` (states threaded by `runStep`). -/
+def historyAborts (fuel : Nat) : PieSt → List HStep → List Abort
+  | _, [] => []
+  | p, st :: rest =>
+    stepAborts sem body fuel p st ++ historyAborts fuel (runStep sem body fuel p st) rest
+
+/-- `historyAborts` collects, for every step of the history, the abort of that step run in the
+state reached by the preceding steps (as computed by `runHistory`). -/
+theorem C20_historyAborts_spec (fuel : Nat) (steps : List HStep) (a : Abort) :
+    a ∈ historyAborts sem body fuel {} steps ↔
+      ∃ pre st post, steps = pre ++ st :: post ∧
+        a ∈ stepAborts sem body fuel (runHistory sem body fuel pre) st := by
+  unfold runHistory
+  suffices H : ∀ (steps : List HStep) (p : PieSt), a ∈ historyAborts sem body fuel p steps ↔
+      ∃ pre st post, steps = pre ++ st :: post ∧
+        a ∈ stepAborts sem body fuel (pre.foldl (runStep sem body fuel) p) st from H steps {}
+  intro steps
+  induction steps with
+  | nil =>
+    intro p
+    simp [historyAborts]
+  | cons st rest ih =>
+    intro p
+    simp only [historyAborts, List.mem_append, ih]
+    constructor
+    · rintro (h | ⟨pre, st', post, rfl, h⟩)
+      · exact ⟨[], st, rest, rfl, h⟩
+      · exact ⟨st :: pre, st', post, rfl, h⟩
+    · rintro ⟨pre, st', post, heq, h⟩
+      cases pre with
+      | nil =>
+        simp only [List.nil_append, List.cons.injEq] at heq
+        obtain ⟨rfl, rfl⟩ := heq
+        exact .inl h
+      | cons x pre =>
+        simp only [List.cons_append, List.cons.injEq] at heq
+        obtain ⟨rfl, rfl⟩ := heq
+        exact .inr ⟨pre, st', post, rfl, h⟩
+
+variable {ro} {body}
+variable (hwf : WellFormedBody ro body)
+include hwf
+
+/-! ### top-down -/
+
+/-- The five mutually recursive functions of the top-down context: invariant preserved
+whatever the result, no diagnosed violation.  (`tdRun`: for the remaining program `p` of the
+executing task `t0` with the path accumulator `a` reflected in the store.) -/
+theorem C20_static_topdown (fuel : Nat) (s : Sess) (h : SessWF s) (hi : RolesInv ro s.store) :
+    (∀ t c, ReqPre ro s t → NoViol (tdRequire sem body fuel s t c).2 ∧
+      SessWF (tdRequire sem body fuel s t c).1 ∧ RolesInv ro (tdRequire sem body fuel s t c).1.store) ∧
+    (∀ t, NoViol (tdMake sem body fuel s t).2 ∧
+      SessWF (tdMake sem body fuel s t).1 ∧ RolesInv ro (tdMake sem body fuel s t).1.store) ∧
+    (∀ node t, s.store.taskOf node = some t → NoViol (tdCheck sem body fuel s node).2 ∧
+      SessWF (tdCheck sem body fuel s node).1 ∧ RolesInv ro (tdCheck sem body fuel s node).1.store) ∧
+    (∀ ds, NoViol (tdCheckDeps sem body fuel s ds).2 ∧
+      SessWF (tdCheckDeps sem body fuel s ds).1 ∧ RolesInv ro (tdCheckDeps sem body fuel s ds).1.store) ∧
+    (∀ p cur t0 a, s.cur = some cur → s.store.taskOf cur = some t0 → StaticRolesFrom ro t0 a p →
+      AccOK s.store cur a → NoViol (tdRun sem body fuel s p).2 ∧
+      SessWF (tdRun sem body fuel s p).1 ∧ RolesInv ro (tdRun sem body fuel s p).1.store) := by
+  have H := tdRoles (sem := sem) hwf fuel
+  refine ⟨fun t c hp => ?_, fun t => ?_, fun n t ht => ?_, fun ds => ?_,
+    fun p cur t0 a hc ht hp ha => ?_⟩
+  · have := (H.require s t c h hi hp).1; exact ⟨this.noViol, this.rext.wf, this.rext.inv⟩
+  · have := H.make s t h hi; exact ⟨this.noViol, this.rext.wf, this.rext.inv⟩
+  · have := H.check s n t h hi ht; exact ⟨this.noViol, this.rext.wf, this.rext.inv⟩
+  · have := H.checkDeps s ds 0 h hi (fun _ _ _ _ => Nat.zero_le _)
+    exact ⟨this.noViol, this.rext.wf, this.rext.inv⟩
+  · have := H.run s p cur t0 a h hi hc ht hp ha
+    exact ⟨this.noViol, this.rext.wf, this.rext.inv⟩
+
+/-- `Session::require` and a list of roots. -/
+theorem C20_static_no_abort_topdown (fuel : Nat) (s : Sess) (h : SessWF s)
+    (hi : RolesInv ro s.store) (roots : List Nat) :
+    NoViol (requireAll sem body fuel s roots).2 ∧ SessWF (requireAll sem body fuel s roots).1 ∧
+      RolesInv ro (requireAll sem body fuel s roots).1.store :=
+  have := requireAll_roles (sem := sem) hwf fuel roots h hi
+  ⟨this.noViol, this.rext.wf, this.rext.inv⟩
+
+theorem C20_static_sessionRequire (fuel : Nat) (s : Sess) (h : SessWF s)
+    (hi : RolesInv ro s.store) (t : Nat) :
+    NoViol (sessionRequire sem body fuel s t).2 ∧ SessWF (sessionRequire sem body fuel s t).1 ∧
+      RolesInv ro (sessionRequire sem body fuel s t).1.store :=
+  have := sessionRequire_roles (sem := sem) hwf fuel h hi t
+  ⟨this.noViol, this.rext.wf, this.rext.inv⟩
+
+/-! ### bottom-up -/
+
+omit hwf in
+/-- Scheduling only creates resource nodes. -/
+theorem C20_static_scheduling (s : Sess) (h : SessWF s) (hi : RolesInv ro s.store) :
+    (∀ tnode d, RolesInv ro (trySchedule sem s tnode d).store) ∧
+    (∀ r, RolesInv ro (scheduleAffectedBy sem s r).store) ∧
+    (∀ node t out, RolesInv ro (scheduleAfterExec sem s node t out).store) :=
+  ⟨fun n d => (store_trySchedule sem s n d) ▸ hi,
+    fun r => (scheduleAffectedBy_rext sem h hi r 0 none).inv,
+    fun n t o => (scheduleAfterExec_rext sem h hi n t o 0 none).inv⟩
+
+/-- The six mutually recursive functions of the bottom-up context. -/
+theorem C20_static_bottomup (fuel : Nat) (s : Sess) (h : SessWF s) (hi : RolesInv ro s.store) :
+    (∀ t c, ReqPre ro s t → NoViol (buRequire sem body fuel s t c).2 ∧
+      SessWF (buRequire sem body fuel s t c).1 ∧ RolesInv ro (buRequire sem body fuel s t c).1.store) ∧
+    (∀ t node, s.store.taskOf node = some t → NoViol (buMake sem body fuel s t node).2 ∧
+      SessWF (buMake sem body fuel s t node).1 ∧ RolesInv ro (buMake sem body fuel s t node).1.store) ∧
+    (∀ t node, s.store.taskOf node = some t → NoViol (buExec sem body fuel s t node).2 ∧
+      SessWF (buExec sem body fuel s t node).1 ∧ RolesInv ro (buExec sem body fuel s t node).1.store) ∧
+    (∀ node, NoViol (buExecAndSchedule sem body fuel s node).2 ∧
+      SessWF (buExecAndSchedule sem body fuel s node).1 ∧
+      RolesInv ro (buExecAndSchedule sem body fuel s node).1.store) ∧
+    (∀ src t, s.store.taskOf src = some t → NoViol (buRequireNow sem body fuel s src).2 ∧
+      SessWF (buRequireNow sem body fuel s src).1 ∧
+      RolesInv ro (buRequireNow sem body fuel s src).1.store) ∧
+    (∀ p cur t0 a, s.cur = some cur → s.store.taskOf cur = some t0 → StaticRolesFrom ro t0 a p →
+      AccOK s.store cur a → NoViol (buRun sem body fuel s p).2 ∧
+      SessWF (buRun sem body fuel s p).1 ∧ RolesInv ro (buRun sem body fuel s p).1.store) := by
+  have H := buRoles (sem := sem) hwf fuel
+  refine ⟨fun t c hp => ?_, fun t n ht => ?_, fun t n ht => ?_, fun n => ?_, fun n t ht => ?_,
+    fun p cur t0 a hc ht hp ha => ?_⟩
+  · have := (H.require s t c h hi hp).1; exact ⟨this.noViol, this.rext.wf, this.rext.inv⟩
+  · have := H.make s t n h hi ht; exact ⟨this.noViol, this.rext.wf, this.rext.inv⟩
+  · have := H.exec s t n h hi ht; exact ⟨this.noViol, this.rext.wf, this.rext.inv⟩
+  · have := H.execAndSchedule s n 0 h hi (fun _ _ => Nat.zero_le _)
+    exact ⟨this.noViol, this.rext.wf, this.rext.inv⟩
+  · have := H.requireNow s n t h hi ht; exact ⟨this.noViol, this.rext.wf, this.rext.inv⟩
+  · have := H.run s p cur t0 a h hi hc ht hp ha
+    exact ⟨this.noViol, this.rext.wf, this.rext.inv⟩
+
+/-- `create_bottom_up_build` … `update_affected_tasks`. -/
+theorem C20_static_no_abort_bottomup (fuel : Nat) (s : Sess) (h : SessWF s)
+    (hi : RolesInv ro s.store) (changed : List Nat) :
+    NoViol (bottomUpBuild sem body fuel s changed).2 ∧
+      SessWF (bottomUpBuild sem body fuel s changed).1 ∧
+      RolesInv ro (bottomUpBuild sem body fuel s changed).1.store :=
+  have := bottomUpBuild_roles (sem := sem) hwf fuel h hi changed
+  ⟨this.noViol, this.rext.wf, this.rext.inv⟩
+
+/-! ### histories -/
+
+include hwf
+
+/-- One step: the invariant is kept and the step does not end with a diagnosed violation. -/
+theorem C20_static_runStep (fuel : Nat) (p : PieSt) (hi : RolesInv ro p.store) (st : HStep) :
+    RolesInv ro (runStep sem body fuel p st).store ∧
+      ∀ a ∈ stepAborts sem body fuel p st, a.isViol = false := by
+  have h0 : SessWF p.newSession := C19_newSession_wf p hi.wf
+  have hi0 : RolesInv ro p.newSession.store := hi
+  cases st with
+  | change r v =>
+    refine ⟨?_, fun a ha => nomatch ha⟩
+    unfold runStep; rw [C19_setContent_store]; exact hi
+  | session roots =>
+    have H := requireAll_roles (sem := sem) hwf fuel roots h0 hi0
+    refine ⟨H.rext.inv, ?_⟩
+    intro a ha
+    simp only [stepAborts] at ha
+    split at ha
+    next a' heq => cases List.mem_singleton.mp ha; exact H.noViol _ heq
+    · cases ha
+  | bottomUp changed roots =>
+    have H1 := bottomUpBuild_roles (sem := sem) hwf fuel h0 hi0 changed
+    constructor
+    · show RolesInv ro (match bottomUpBuild sem body fuel p.newSession changed with
+        | (s, .abort _) => s.toPie
+        | (s, .ok ()) => (requireAll sem body fuel s roots).1.toPie).store
+      split
+      next s a heq => exact (H1.out heq).1.inv
+      next s heq =>
+        exact (requireAll_roles (sem := sem) hwf fuel roots (H1.out heq).1.wf (H1.out heq).1.inv).rext.inv
+    · intro a ha
+      simp only [stepAborts] at ha
+      split at ha
+      next s a' heq => cases List.mem_singleton.mp ha; exact (H1.out heq).2 _ rfl
+      next s heq =>
+        have H2 := requireAll_roles (sem := sem) hwf fuel roots (H1.out heq).1.wf (H1.out heq).1.inv
+        split at ha
+        next a' heq2 => cases List.mem_singleton.mp ha; exact H2.noViol _ heq2
+        · cases ha
+
+/-- After every history the store satisfies the invariant. -/
+theorem C20_static_history_inv (fuel : Nat) (steps : List HStep) :
+    RolesInv ro (runHistory sem body fuel steps).store := by
+  unfold runHistory
+  have key : ∀ (l : List HStep) (p : PieSt), RolesInv ro p.store →
+      RolesInv ro (l.foldl (runStep sem body fuel) p).store := by
+    intro l
+    induction l with
+    | nil => intro p h; exact h
+    | cons st l ih => intro p h; exact ih _ (C20_static_runStep sem hwf fuel p h st).1
+  exact key steps {} (RolesInv.empty ro)
+
+/-- **C20 (static-role fragment).**  For a program table that respects static roles, along
+every history — external changes, top-down sessions with several roots, bottom-up builds
+followed by requires — for every checker semantics and every fuel, no session or build ends
+with a cyclic-dependency, hidden-dependency or overlapping-write abort. -/
+theorem C20_static_no_abort (fuel : Nat) (steps : List HStep) :
+    ∀ a ∈ historyAborts sem body fuel {} steps, a ≠ .cyclic ∧ a ≠ .hidden ∧ a ≠ .overlap := by
+  have key : ∀ (l : List HStep) (p : PieSt), RolesInv ro p.store →
+      ∀ a ∈ historyAborts sem body fuel p l, a.isViol = false := by
+    intro l
+    induction l with
+    | nil => intro p _ a ha; cases ha
+    | cons st l ih =>
+      intro p h a ha
+      have hs := C20_static_runStep sem hwf fuel p h st
+      simp only [historyAborts, List.mem_append] at ha
+      rcases ha with ha | ha
+      · exact hs.2 a ha
+      · exact ih _ hs.1 a ha
+  intro a ha
+  have := key steps {} (RolesInv.empty ro) a ha
+  refine ⟨?_, ?_, ?_⟩ <;> rintro rfl <;> cases this
+
+/-- The same in terms of `runHistory`: whatever history came before, the next top-down session
+and the next bottom-up build do not end with a diagnosed violation. -/
+theorem C20_static_no_abort_next (fuel : Nat) (steps : List HStep) (changed roots : List Nat) :
+    NoViol (requireAll sem body fuel (runHistory sem body fuel steps).newSession roots).2 ∧
+    NoViol (bottomUpBuild sem body fuel (runHistory sem body fuel steps).newSession changed).2 := by
+  have hi := C20_static_history_inv sem hwf fuel steps
+  have h0 := C19_newSession_wf _ hi.wf
+  exact ⟨(requireAll_roles (sem := sem) hwf fuel roots h0 hi).noViol,
+    (bottomUpBuild_roles (sem := sem) hwf fuel h0 hi changed).noViol⟩
+
+/-- The from-scratch build agrees: in every resource state, the clean build of a program that
+respects static roles does not end with a diagnosed violation either. -/
+theorem C20_static_clean_agrees (fuel : Nat) (fs : List (Nat × Int)) (roots : List Nat) :
+    NoViol (cleanBuild sem body fuel fs roots).2 ∧
+      RolesInv ro (cleanBuild sem body fuel fs roots).1.store := by
+  have h0 : SessWF ({ fs := fs } : Sess) :=
+    ⟨Store.WF.empty, fun _ hn => (nomatch hn), fun _ hn => (nomatch hn)⟩
+  have := requireAll_roles (sem := sem) hwf fuel roots h0 (RolesInv.empty ro)
+  exact ⟨this.noViol, this.rext.inv⟩
+
+omit hwf
+
+/-! ### non-vacuity
+
+Task 3 generates resource 10 from source 1; task 1 requires 3 and then reads 10; task 2 reads
+source 0 and requires 3 only if it contains `1`. -/
+
+def c20Roles : Roles := { rank := fun t => t, gen := fun r => if r = 10 then some 3 else none }
+
+def c20Body : Nat → Prog
+  | 1 => .req 3 0 (fun o => .read 10 0 (fun x =>
+      match x with
+      | .ok (some v) => .ret (v + o)
+      | _ => .ret 0))
+  | 2 => .read 0 0 (fun x =>
+      match x with
+      | .ok (some 1) => .req 3 0 (fun o => .ret o)
+      | _ => .ret 7)
+  | 3 => .read 1 0 (fun x =>
+      .write 10 0 (match x with | .ok (some v) => some (v * 2) | _ => some 0) (fun _ => .ret 1))
+  | _ => .ret 0
+
+theorem c20Body_wf : WellFormedBody c20Roles c20Body := by
+  intro t
+  unfold StaticRoles
+  match t with
+  | 0 => simp [c20Body, StaticRolesFrom]
+  | 1 =>
+    simp only [c20Body, StaticRolesFrom, c20Roles]
+    refine ⟨by decide, fun o => ⟨by decide, by simp, fun x => ?_⟩⟩
+    split <;> trivial
+  | 2 =>
+    simp only [c20Body, StaticRolesFrom, c20Roles]
+    refine ⟨by decide, by simp, fun x => ?_⟩
+    split
+    · exact ⟨by decide, fun _ => trivial⟩
+    · trivial
+  | 3 =>
+    simp only [c20Body, StaticRolesFrom, c20Roles]
+    exact ⟨by decide, by simp, fun x => ⟨by decide, by simp, fun _ => trivial⟩⟩
+  | n + 4 => simp [c20Body, StaticRolesFrom]
+
+/-- The verdict of a top-down session on `p`. -/
+def c20Verdict (p : PieSt) (roots : List Nat) : Option Abort × Option (List Int) :=
+  match requireAll stdSem c20Body 60 p.newSession roots with
+  | (_, .abort a) => (some a, none)
+  | (_, .ok os) => (none, some os)
+
+def c20H1 : List HStep := [.change 1 (some 5), .change 0 (some 1)]
+def c20H2 : List HStep := c20H1 ++ [.session [1, 2], .change 1 (some 6)]
+def c20H3 : List HStep := c20H2 ++ [.session [1, 2], .change 1 (some 8), .change 0 (some 2)]
+
+/-- First session: 3 writes `10 := 10`, 1 reads it, 2 requires 3. -/
+example : c20Verdict (runHistory stdSem c20Body 60 c20H1) [1, 2] = (none, some [11, 1]) := by
+  with_unfolding_all decide
+
+/-- After an external change of source 1 the second session re-executes 3 (which overwrites the
+resource task 1 read — no hidden dependency, no overlap) and then 1. -/
+example : c20Verdict (runHistory stdSem c20Body 60 c20H2) [1, 2] = (none, some [13, 1]) := by
+  with_unfolding_all decide
+
+/-- A bottom-up build after further changes, followed by requires: no abort in the whole
+history. -/
+example : historyAborts stdSem c20Body 60 {} (c20H3 ++ [.bottomUp [1, 0] [1, 2]]) = [] := by
+  with_unfolding_all decide
+
+/-- ... as the theorem says. -/
+example : ∀ a ∈ historyAborts stdSem c20Body 60 {} (c20H3 ++ [.bottomUp [1, 0] [1, 2]]),
+    a ≠ .cyclic ∧ a ≠ .hidden ∧ a ≠ .overlap :=
+  C20_static_no_abort stdSem c20Body_wf 60 _
+
+/-- The hypothesis is needed.  Variant: task 1 reads the generated resource 10 WITHOUT requiring
+its generator 3.  It does not respect the roles ... -/
+def c20BadBody : Nat → Prog
+  | 1 => .read 10 0 (fun _ => .ret 0)
+  | t => c20Body t
+
+example : ¬ StaticRoles c20Roles 1 (c20BadBody 1) := by
+  simp [StaticRoles, c20BadBody, StaticRolesFrom, c20Roles]
+
+/-- ... and after a session that built 3, the session requiring 1 aborts with `hidden`. -/
+example : historyAborts stdSem c20BadBody 60 {} (c20H1 ++ [.session [3], .session [1]]) =
+    [.hidden] := by
+  with_unfolding_all decide
+
+/-- The three diagnoses are reachable for programs that do NOT respect static roles (so the
+theorem is not vacuous on the model side): C19's example program aborts with `cyclic`. -/
+example : historyAborts stdSem c19Body 50 {} [.change 0 (some 1), .session [0]] = [.cyclic] := by
+  with_unfolding_all decide
+
 end PieModel
